@@ -20,8 +20,8 @@ RULE = ("two real dilated wormholes with tiny randomised L2 send buffers (one wr
         "Outbound/Inbound state. Non-trivial = at least one transport-initiated pause reached a "
         "registered producer; distinct = decision traces.")
 ASSUMPTIONS = ["Noise stand-in", "state probes read Manager._connection, transport.producerPaused/reading between steps"]
-FLOORS = {"quick": {"probes": 60000, "producer_pauses": 1500, "producer_resumes": 1500, "inbound_pause_calls": 300, "cuts": 60, "producers_that_are_false": 100, "producers_left_inside_pause": 50, "pauses_after_connectionLost": 80},
-          "thorough": {"probes": 2000000, "producer_pauses": 50000, "producer_resumes": 50000, "inbound_pause_calls": 10000, "cuts": 2000, "producers_that_are_false": 3000, "producers_left_inside_pause": 1500, "pauses_after_connectionLost": 2500}}
+FLOORS = {"quick": {"probes": 60000, "producer_pauses": 1500, "producer_resumes": 1500, "inbound_pause_calls": 300, "cuts": 60, "unregisters_in_connectionLost": 80, "producers_that_are_false": 100, "producers_left_inside_pause": 50, "pauses_after_connectionLost": 80},
+          "thorough": {"probes": 2000000, "producer_pauses": 50000, "producer_resumes": 50000, "inbound_pause_calls": 10000, "cuts": 2000, "unregisters_in_connectionLost": 2500, "producers_that_are_false": 3000, "producers_left_inside_pause": 1500, "pauses_after_connectionLost": 2500}}
 
 
 @implementer(interfaces.IPushProducer)
@@ -127,6 +127,22 @@ class PausingFactory(RecFactory):
                 except Exception as e:
                     drv.api_errors.append(("transport.pauseProducing", p.name, type(e).__name__, repr(e)[:160]))
         p.dataReceived = dataReceived
+        origl = p.connectionLost
+
+        def connectionLost(reason=None):
+            origl(reason)
+            # the usual tidy-up: a protocol that had registered a producer lets go of it when its connection ends
+            if drv is not None and any(q.proto is p and q.registered for q in drv.producers):
+                drv.unregisters_in_connectionLost += 1
+                try:
+                    p.transport.unregisterProducer()
+                except Exception as e:
+                    drv.api_errors.append(("unregisterProducer(from connectionLost)", p.name, type(e).__name__, repr(e)[:160]))
+                for q in drv.producers:
+                    if q.proto is p:
+                        q.registered = False
+                        q.unregistered_at = drv.world.step
+        p.connectionLost = connectionLost
         return p
 
 
@@ -159,6 +175,7 @@ class Driver:
         self.send_and_close = 0
         self.left_on_pause = 0
         self.falsy_producers = 0
+        self.unregisters_in_connectionLost = 0
 
     def side_of(self, proto):
         return proto.name[0]
@@ -507,7 +524,7 @@ def run_case(spec):
             "counters": {"probes": stats["probes"], "producer_pauses": pauses, "producer_resumes": resumes,
                          "producers": len(drv.producers), "pull_producers": sum(q.kind == "pull" for q in drv.producers), "pull_producers_finished": pull_finished,
                          "inbound_pause_calls": drv.inbound_calls, "pauses_inside_dataReceived": drv.pauses_in_data, "cuts": stats["cuts"], "notrans_seen": len(MON.notrans),
-                         "log_errors_seen": len(MON.errors), "producers_that_are_false": drv.falsy_producers, "producers_left_inside_pause": drv.left_on_pause, "pauses_after_connectionLost": drv.late_pauses},
+                         "log_errors_seen": len(MON.errors), "producers_that_are_false": drv.falsy_producers, "producers_left_inside_pause": drv.left_on_pause, "pauses_after_connectionLost": drv.late_pauses, "unregisters_in_connectionLost": drv.unregisters_in_connectionLost},
             "sets": {"logged_errors": sorted({e[0] + ":" + e[3] for e in MON.errors})},
             "sample": {"spec": spec, "buffer_size": r.default_buffer_size,
                        "producers": [(q.proto.name, q.kind, [w for (_, w) in q.signals][:10]) for q in drv.producers][:5],
